@@ -211,19 +211,21 @@ def one_case(ctx, M, keys, case, verbose=False):
             ctx.disagree(fn, 'model raises, implementation returns', case, m, wire)
         elif exc_code(r) != m[1]:
             ctx.stat('error-class-differs')
-        ctx.case(('c16', repr(case)), False, None, stratum + '.err')
+        if r != 'ok':
+            ctx.case(('c16', repr(case)), False, None, stratum + '.err')
+            return None
+    elif r != 'ok':
+        ctx.disagree(fn, 'implementation raises, model returns', case, m[1][0], repr(r))
         return None
-    m = m[1]
-    if r != 'ok':
-        ctx.disagree(fn, 'implementation raises, model returns', case, m[0], repr(r))
-        return None
-    if bytes(m[0]) != wire:
-        ctx.disagree(fn, 'different certificate bytes', case, m[0], wire)
-    if [bytes(c) for c in m[1]] != cname:
-        ctx.disagree(fn, 'different returned name', case, m[1], cname)
     given = b''.join(rec.blocks) if rec is not None and rec.blocks is not None else None
-    if given is not None and bytes(m[2]) != given:
-        ctx.disagree(fn, 'different bytes handed to the signer', case, m[2], given)
+    if not is_err(m):
+        m = m[1]
+        if bytes(m[0]) != wire:
+            ctx.disagree(fn, 'different certificate bytes', case, m[0], wire)
+        if [bytes(c) for c in m[1]] != cname:
+            ctx.disagree(fn, 'different returned name', case, m[1], cname)
+        if given is not None and bytes(m[2]) != given:
+            ctx.disagree(fn, 'different bytes handed to the signer', case, m[2], given)
 
     # ---- oracle on the implementation's certificate
     c = {**case, 'wire': wire}
